@@ -311,6 +311,30 @@ class Paths:
         return out
 
 
+def next_amount(crate, body, write_lists):
+    """None if every cursor write of the given success paths of a `next` implementation advances by one character."""
+    for ws in write_lists:
+        for kind, node in ws:
+            if kind.startswith("temp"):
+                continue
+            if kind.startswith("via:"):
+                args = node.get("args") or []
+                a = _peel(args[-1]) if args else None
+                nm = kind[4:]
+                if nm == "skip" and a is not None and a["k"] == "lit" and (a.get("v") or {}).get("int") == "1":
+                    continue
+                if nm == "next" and not args:
+                    continue
+                return "advances with `%s(%s)`: not by exactly the one character it returns" % (nm, (a.get("v") or {}).get("int", "..") if a is not None and a["k"] == "lit" else "..")
+            if kind == "cursor" or kind.startswith("field:"):
+                r = _peel(node.get("r", {"k": "none"}))
+                ok = node["k"] == "assign_op" and node.get("op") in ("+=", "+") and r["k"] in ("mcall", "call") and r.get("callee") and \
+                    strip_generics(r["callee"]["path"]).endswith("char::methods::<impl char>::len_utf8")
+                if not ok:
+                    return "the cursor is not advanced by `<the character read>.len_utf8()`"
+    return None
+
+
 def consumers(crate):
     """(label, fn id, method name) for every consuming primitive: trait defaults and overrides in impls of Input."""
     out = []
@@ -364,6 +388,12 @@ def adv_rule(rule, crate, helpers=("pest_typed::position::Position::skip",)):
                     bad = True
                     rule.violate(label, "a path reports failure (%s) after moving the cursor (%s)" % (v, ", ".join(x[0] for x in good(w))), crate.loc(good(w)[0][1].get("sp")) or loc)
                     break
+        if not bad and m == "next":
+            # `next` consumes exactly the character it hands out: `*cursor += c.len_utf8()` for the character read, or `skip(1)`
+            why = next_amount(crate, b, [w for _, w in succ])
+            if why:
+                bad = True
+                rule.violate(label, why, loc)
         if not bad and not succ:
             # no definite success path (result flows through something opaque): fall back to existence of a rooted write
             anyw = any(good(w) for _, w in res)
